@@ -4,7 +4,8 @@
 #ifndef NATIVE_REPLAY
 /* ghost: the input line is g_in[0..g_len], g_in[g_len] == 0, no NUL before */
 const char *g_in; int g_len;
-#define LINE_MAX_OBJ 100000   /* CBMC object-size choice only */
+int g_bad;
+#define LINE_MAX_OBJ 10000   /* CBMC object-size choice only */
 
 /* filter: reads only inside the NUL-terminated input, writes only filter_str[0..99], leaves it
  * NUL-terminated (it arrives zeroed), returns a position inside the input */
@@ -12,9 +13,14 @@ int filter_assembly_str_fsa__c(const char unfiltered_str[], char filter_str[])
   __CPROVER_requires(g_len >= 0 && g_len <= LINE_MAX_OBJ && __CPROVER_is_fresh(unfiltered_str, g_len + 1) && g_in == unfiltered_str)
   __CPROVER_requires(unfiltered_str[g_len] == '\0')
   __CPROVER_requires(__CPROVER_is_fresh(filter_str, FILTERED_STR_LEN) && filter_str[FILTERED_STR_LEN - 1] == '\0')
+  __CPROVER_requires(g_bad >= 0 && g_bad <= g_len)
   __CPROVER_assigns(__CPROVER_object_whole(filter_str))
-  __CPROVER_ensures(__CPROVER_return_value >= 0 && __CPROVER_return_value <= g_len)
-  __CPROVER_ensures(filter_str[FILTERED_STR_LEN - 1] == '\0');
+  __CPROVER_ensures(__CPROVER_return_value == ASM_ERROR || (__CPROVER_return_value >= 0 && __CPROVER_return_value <= g_len))
+  __CPROVER_ensures(filter_str[FILTERED_STR_LEN - 1] == '\0')
+  /* C10: the part of the line the filter has scanned (up to the returned position) holds no byte above 0x7e -
+   * stated for one arbitrary position g_bad (ghost index instead of a quantifier); hence such a byte before the
+   * line/comment terminator makes the filter return the error */
+  __CPROVER_ensures(__CPROVER_return_value >= 0 && g_bad < __CPROVER_return_value ==> (unsigned char)unfiltered_str[g_bad] <= 0x7e);
 #endif
 #endif
 #ifndef NATIVE_REPLAY
@@ -170,4 +176,10 @@ operand_format get_opd_format__c(char *opd_en)
   __CPROVER_requires(__CPROVER_r_ok(opd_en, 5) && opd_en[4] == 0)
   __CPROVER_assigns()
   __CPROVER_ensures(__CPROVER_return_value == opd_error || FMT_EXACT(__CPROVER_return_value, opd_en));
+#endif
+#ifndef NATIVE_REPLAY
+/* abstraction of strcmp for look-up lemmas whose claim does not depend on the comparison result */
+int strcmp__any(const char *s1, const char *s2)
+  __CPROVER_requires(__CPROVER_r_ok(s1, 1) && __CPROVER_r_ok(s2, 1))
+  __CPROVER_assigns();
 #endif
